@@ -297,6 +297,14 @@ def apply_op(w, op):
                         refused.append(True)
                 for (_, _, arr, _) in w.handed_in:
                     arr += 1000.0           # the caller's own array: allowed, must not reach the store
+                # the pointer OBJECTS a look-up hands out are the caller's too: rebinding their attributes (plain
+                # Python, nothing forbids it) must not change what the vocabulary returns afterwards
+                for key in list(v):
+                    try:
+                        hp = v[key]
+                        hp.v = np.full(D, 55.0)
+                    except Exception:  # noqa: BLE001  (a read-only attribute would be fine as well)
+                        pass
                 info["refused"] = refused
                 return "done", info
     except Exception as e:  # noqa: the class family is the observation
@@ -480,8 +488,18 @@ def oracle(w, op, outcome, info, prev, cur):
             got = [(kk, tuple(float(t) for t in s[kk].v)) for kk in s]
             if got != [(kk, now.get(kk)) for kk in op[2]]:
                 bad.append(("subset-content", f"{got}", "the requested keys with this vocabulary's vectors"))
-            ks_ = list(s)
-            if len(set(ks_)) != len(ks_) or len(s) != len(ks_) or s.vectors.shape[0] != len(ks_):
+            try:    # the subset is the caller's own vocabulary: what is added to it later stays out of the parent
+                s.add("SubsetOnly9", np.arange(D, dtype=float))
+                s_grew = True
+            except Exception:  # noqa: BLE001
+                s_grew = False
+            pv_ = w.v[op[1]]
+            if s_grew and ("SubsetOnly9" in pv_ or "SubsetOnly9" in list(pv_) or len(pv_) != len(list(pv_))
+                           or pv_.vectors.shape[0] != len(list(pv_))):
+                bad.append(("subset-independent", f"after sub.add('SubsetOnly9', ...) the parent lists {list(pv_)}, len {len(pv_)}, "
+                            f"{pv_.vectors.shape[0]} vectors", "the parent is untouched by additions to a subset"))
+            ks_ = [k_ for k_ in s if k_ != "SubsetOnly9"]
+            if len(set(ks_)) != len(ks_) or len(s) - int(s_grew) != len(ks_) or s.vectors.shape[0] - int(s_grew) != len(ks_):
                 bad.append(("subset-consistent", f"keys {ks_}, len {len(s)}, {s.vectors.shape[0]} vectors",
                             "a vocabulary: distinct keys, length, iteration and matrix agree (a repeated name is rejected)"))
     elif k == "pop":
